@@ -513,21 +513,38 @@ class Rendezvous:
             self.cv.notify_all()
             self.cv.wait_for(lambda: len(self.arrived[d]) >= 2, timeout=1.5)
 
+    def before_mkdir(self, path):
+        """two threads that are about to create the SAME crowded sub-directory do it at the same moment"""
+        d = str(path)
+        if d not in self.crowded:
+            return
+        with self.cv:
+            self.making[d].add(self.ident())
+            self.cv.notify_all()
+            self.cv.wait_for(lambda: len(self.making[d]) >= 2, timeout=0.25)
+
     def __enter__(self):
-        orig = Path.write_bytes
+        from collections import defaultdict
+        orig, orig_mkdir = Path.write_bytes, Path.mkdir
         me = self
+        self.making = defaultdict(set)
 
         def write_bytes(self, data):
             n = orig(self, data)
             if str(self).startswith(me.root):
                 me.after_write(self)
             return n
-        self._orig = orig
-        Path.write_bytes = write_bytes
+
+        def mkdir(self, mode=0o777, parents=False, exist_ok=False):
+            if str(self).startswith(me.root):
+                me.before_mkdir(self)
+            return orig_mkdir(self, mode=mode, parents=parents, exist_ok=exist_ok)
+        self._orig, self._orig_mkdir = orig, orig_mkdir
+        Path.write_bytes, Path.mkdir = write_bytes, mkdir
         return self
 
     def __exit__(self, *exc):
-        Path.write_bytes = self._orig
+        Path.write_bytes, Path.mkdir = self._orig, self._orig_mkdir
 
 
 class Gate:
